@@ -34,6 +34,7 @@ MIN_REACH = {
     "new_samplers": {"quick": 60, "thorough": 1000},
     "crops_reaped_by_a_reloaded_crop": {"quick": 20, "thorough": 350},
     "runs_whose_save_failed": {"quick": 10, "thorough": 200},
+    "samplers_with_a_compressed_table": {"quick": 15, "thorough": 300},
     "older_sampler_reused": {"quick": 8, "thorough": 150},
     "generator_draws_matched": {"quick": 300, "thorough": 5000},
 }
@@ -56,7 +57,9 @@ def cases(ctx):
                 r["override"] = None
         yield {"runs": runs, "no_args": no_args, "engine": rng.choice(["pickle", "pickle", "csv"]), "kind": rng.choice(["float", "multi:s,s", "int", "str"]),
                "constants": rng.choice([{}, {"kc": 3}, {"kc": "zz", "k2": 1.5}]), "mem_only": rng.random() < 0.1,
-               "default_kind": rng.choice(["lists", "mixed"]), "x_dates": rng.random() < 0.3}
+               "default_kind": rng.choice(["lists", "mixed"]), "x_dates": rng.random() < 0.3,
+               # table names whose extension asks pandas for compression
+               "compress": rng.choice(["", "", "", ".gz", ".xz", ".bz2"])}
 
 
 class LoggingGen(object):
@@ -80,7 +83,9 @@ def run_case(ctx, case):
     kind = case["kind"]
     engine = case["engine"]
     tmp = ctx.mkdtemp("smp")
-    data_name = None if case["mem_only"] else os.path.join(tmp, "samples." + ("pkl" if engine == "pickle" else "csv"))
+    data_name = None if case["mem_only"] else os.path.join(tmp, "samples." + ("pkl" if engine == "pickle" else "csv") + case.get("compress", ""))
+    if data_name is not None and case.get("compress"):
+        ctx.count("samplers_with_a_compressed_table")
     constants = dict(case["constants"])
     var_names = ["y", "z"] if kind.startswith("multi") else "y"
     outs = ["y", "z"] if kind.startswith("multi") else ["y"]
